@@ -19,6 +19,11 @@ type intrinsicFn func(fr *frame, args []value) (value, bool)
 
 var intrinsics = map[string]intrinsicFn{}
 
+// slogAttr: attribute constructors of log/slog give an empty attribute (logging has empty bodies).
+func slogAttr(fr *frame, a []value) (value, bool) {
+	return structure{"", structure{array{}, uint64(0), iface{}}}, true
+}
+
 func init() {
 	for k, v := range map[string]intrinsicFn{
 		// strings.Builder
@@ -82,9 +87,13 @@ func init() {
 		"oss.terrastruct.com/d2/lib/log.Info":  nop,
 		"oss.terrastruct.com/d2/lib/log.Warn":  nop,
 		"oss.terrastruct.com/d2/lib/log.Error": nop,
-		"log/slog.Any": func(fr *frame, a []value) (value, bool) {
-			return structure{"", structure{array{}, uint64(0), iface{}}}, true
-		},
+		"log/slog.Any":     slogAttr,
+		"log/slog.Int":     slogAttr,
+		"log/slog.Int64":   slogAttr,
+		"log/slog.String":  slogAttr,
+		"log/slog.Float64": slogAttr,
+		"log/slog.Bool":    slogAttr,
+		"oss.terrastruct.com/d2/lib/log.Leveled": func(fr *frame, a []value) (value, bool) { return a[0], true },
 
 		// sync/atomic
 		"sync/atomic.LoadInt32":    atomicLoad,
